@@ -193,14 +193,14 @@ plan("C13", "fault_enumeration",
 def all_matrix_layers(runs, budget, mw=16, extra=""):
     return [dict(runs=runs, budget_s=budget, params="mode=matrix,mw=%d,mW=%d%s" % (k, mw, extra)) for k in range(mw)]
 q, t = tiers(30, 90, 600, 1200)
-q["layers"] = all_matrix_layers(62, 90, mw=14) + [dict(runs=70, budget_s=90, params="mode=tls"), dict(runs=8, budget_s=90, params="mode=tlsconc")] + native([dict(runs=70, budget_s=90, params="mode=tls"), dict(runs=8, budget_s=90, params="mode=tlsconc")])
-t["layers"] = all_matrix_layers(600, 1200, mw=14) + [dict(runs=70, budget_s=1200, params="mode=tls"), dict(runs=300, budget_s=1200, params="mode=tlsconc")] + native([dict(runs=70, budget_s=1200, params="mode=tls"), dict(runs=300, budget_s=1200, params="mode=tlsconc")])
+q["layers"] = all_matrix_layers(62, 90, mw=14) + [dict(runs=75, budget_s=90, params="mode=tls"), dict(runs=8, budget_s=90, params="mode=tlsconc")] + native([dict(runs=75, budget_s=90, params="mode=tls"), dict(runs=8, budget_s=90, params="mode=tlsconc")])
+t["layers"] = all_matrix_layers(600, 1200, mw=14) + [dict(runs=75, budget_s=1200, params="mode=tls"), dict(runs=300, budget_s=1200, params="mode=tlsconc")] + native([dict(runs=75, budget_s=1200, params="mode=tls"), dict(runs=300, budget_s=1200, params="mode=tlsconc")])
 q["require_complete"] = t["require_complete"] = [("matrix_cases", "matrix_total"), ("edge_cases", "edge_total")]
 q["require_probes"] = t["require_probes"] = ["legit_continuations_ok", "share_ownership_checks", "peer_contribution_replies_checked", "ownership_generations", "edge_genuine_peer_served", "edge_non_peer_calls", "edge_concurrent_non_peer_calls", "concurrent_non_peer_messages"]
 plan("C16", "exploration",
      "the table caller identity {a peer, a configured peer that is not a participant of the generation, an ordinary client with all permissions, empty name, unknown name, a peer's name in upper case, a peer's name with a suffix} x message "
      "{prepare, execute, contribute (with a contribution that would verify), commit, abort} x session state at the receiving instance {none, prepared, executed, committed, aborted, "
-     "expired (fake clock)} is enumerated completely (360 cases, and 270 more in which a genuine peer earlier opened a generation for another account whose participant list names the non-peer caller; callers also: a peer name as host of a longer domain name, with a trailing dot, a prefix of it, with a port, with a leading space) through the real receiver handlers of a 4-instance cluster (3 participants), a 65-case credential x message table goes over real gRPC/TLS (TLS edge; credentials include certificates the configured authority issued to a client with a peer's name among their alternative names); the remaining runs are seeded fault-free generations with "
+     "expired (fake clock)} is enumerated completely (360 cases, and 270 more in which a genuine peer earlier opened a generation for another account whose participant list names the non-peer caller; callers also: a peer name as host of a longer domain name, with a trailing dot, a prefix of it, with a port, with a leading space) through the real receiver handlers of a 4-instance cluster (3 participants), a 70-case credential x message table goes over real gRPC/TLS (TLS edge; credentials include certificates the configured authority issued to a client with a peer's name among their alternative names); the remaining runs are seeded fault-free generations with "
      "drawn (n,t) and id sets and (a third) phases of 2-4 messages of different callers in flight at one instance at once under the seeded scheduler. distinct = distinct table case or (n,t,id-class); non-trivial = all. Oracle: a non-peer gets an error and no share, and the legitimate protocol run "
      "continues from that state to a committed account on every participant; every contribution the transport carries (request and reply) has share = originator's vector evaluated "
      "at the recipient's id and at no other participant's id.",
